@@ -217,7 +217,7 @@ Init == /\ cur \in (IF Mode = "sim" THEN {Empty} ELSE IF Mode = "pairs" THEN Lay
                     ELSE {L \in Layouts : L.n = MaxLvl /\ L.dict = -1 /\ L.cinit = -1 /\ L.off = 0 /\ L.force = -1
                                           /\ L.mem[NameSeq[NNames]] = NoMem
                                           /\ \A i \in 1..(NNames - 1) : L.mem[NameSeq[i]].lvl = (i - 1) % MaxLvl
-                                                                        /\ L.mem[NameSeq[i]].kind \notin {"struct", "ptr"}})
+                                                                        /\ L.mem[NameSeq[i]].kind \in (IF i = 1 THEN {"num", "obj"} ELSE {"obj", "struct"})})
         /\ hist = (IF Mode = "pairs" THEN <<cur>> ELSE <<>>) /\ vals = <<>> /\ e = 0 /\ done = FALSE
 
 CanEdit == /\ Mode # "pairs" /\ Len(hist) < MaxVer
